@@ -523,6 +523,22 @@ func rulesMashAdd(c *Ctx, r *Report) {
 				okSeed = true
 			}
 		}
+		// the hasher made by a helper of the package without parameters whose one statement returns
+		// murmur3.New64WithSeed(Seed)
+		if call, ok := ast.Unparen(as.Rhs[0]).(*ast.CallExpr); ok && len(call.Args) == 0 {
+			if fn, _ := typeutil.Callee(info, call).(*types.Func); fn != nil && fn.Pkg() == p.Types {
+				if hd := findDecl(p, fn.Name()); hd != nil && hd.Body != nil && hd.Recv == nil && len(hd.Body.List) == 1 {
+					if rs, ok := hd.Body.List[0].(*ast.ReturnStmt); ok && len(rs.Results) == 1 {
+						if inner := isCallTo(info, rs.Results[0], "github.com/spaolacci/murmur3.New64WithSeed"); inner != nil {
+							if id, ok := ast.Unparen(inner.Args[0]).(*ast.Ident); ok && info.Uses[id] != nil && info.Uses[id].Name() == "Seed" && info.Uses[id].Parent() == p.Types.Scope() {
+								okSeed = true
+								r.analysed("mash." + fn.Name())
+							}
+						}
+					}
+				}
+			}
+		}
 		return true
 	})
 	r.check(okSeed, "TS-HASH", where, "hasher", c.pos(fd.Pos()), "the hasher is murmur3.New64WithSeed(Seed)", "the hasher is not created as murmur3.New64WithSeed(Seed)")
